@@ -26,6 +26,7 @@ BUILTIN = {
     'uint8_t': 'uint8_t', 'uint16_t': 'uint16_t', 'uint32_t': 'uint32_t', 'uint64_t': 'uint64_t',
     'float': 'float', 'double': 'double',
 }
+BUILTIN_CANON = {'uint8_t': 'unsigned char', 'uint16_t': 'unsigned short', 'uint32_t': 'unsigned int', 'uint64_t': 'unsigned long'}
 INT_RANGE = {'uint8_t': (0, 255), 'uint16_t': (0, 65535), 'uint32_t': (0, 2**32 - 1), 'uint64_t': (0, 2**64 - 1),
              'int': (-2**31, 2**31 - 1), '_Bool': (0, 1), 'char': (-128, 127), 'int8_t': (-128, 127),
              'int16_t': (-2**15, 2**15 - 1), 'int64_t': (-2**63, 2**63 - 1)}
@@ -162,6 +163,10 @@ class Ctx:
                 if e is None:
                     al = self.resolve_alias(c)
                     if al is None:
+                        fr = self.fuzzy_rec(c)
+                        if fr is not None:
+                            self.need_rec(fr, by_value=(ptr == '' and not isref))
+                            return 'struct ' + self.rec_cname(fr) + ptr, suffix, isref
                         raise Unsupported('unknown type %r (canonical %r)' % (t, c))
                     b2, s2, r2 = self.ctype(al)
                     if s2 or r2:
@@ -169,6 +174,27 @@ class Ctx:
                     return b2 + ptr, suffix, isref
                 base = e
         return base + ptr, suffix, isref
+
+    def norm_type_name(self, c):
+        """canonical name with alias-typed template arguments resolved (clang leaves sugar inside
+        the argument lists of not fully desugared type strings)"""
+        m = re.match(r'^([^<]*)<(.*)>$', c)
+        if not m:
+            al = self.resolve_alias(c)
+            if al is not None:
+                return self.norm_type_name(canon_type(al, keep_top_cv=True))
+            return BUILTIN_CANON.get(c, c)
+        args = [self.norm_type_name(a.strip()) for a in split_targs(m.group(2))]
+        return '%s<%s>' % (m.group(1), ','.join(args))
+
+    def fuzzy_rec(self, c):
+        n = self.norm_type_name(c)
+        if n in self.ast.rec_by_qname:
+            return self.ast.rec_by_qname[n]
+        hits = [r for q, r in self.ast.rec_by_qname.items() if q.endswith('::' + n)]
+        if len(hits) == 1:
+            return hits[0]
+        return None
 
     def resolve_alias(self, c):
         """`Rec::Alias` -> the aliased type string (member typedefs of instantiated records)"""
@@ -183,6 +209,15 @@ class Ctx:
             elif ch == ':' and c[i - 1] == ':' and depth == 0:
                 cut = i - 1
                 break
+        if not hasattr(self, '_ns_aliases'):
+            self._ns_aliases = {}
+            for n in self.ast.ids.values():
+                if n.get('kind') in ('TypeAliasDecl', 'TypedefDecl') and n.get('name'):
+                    p = self.ast.parent.get(n['id'])
+                    if p is not None and p.get('kind') in ('NamespaceDecl', 'TranslationUnitDecl'):
+                        self._ns_aliases.setdefault(self._decl_qname(n), n)
+        if c in self._ns_aliases:
+            return type_str(self._ns_aliases[c]['type'])
         if cut is None:
             return None
         r = self.ast.rec_by_qname.get(c[:cut])
@@ -441,11 +476,11 @@ class Ctx:
                     name += '_c'
             targs = self.ast.fn_targs(fn)
             if targs:
-                tt = [x for t in targs for x in AST._targ_print(t) if t[0] == 'type']
+                tt = [x for t in targs for x in AST._targ_print(t) if t[0] == 'type' or (t[0] == 'pack' and all(y[0] == 'type' for y in t[1]))]
                 if tt:
                     name += '__' + sanitize('_'.join(tt))
         if owner is None and self.ast.fn_targs(fn):
-            tt = [x for t in self.ast.fn_targs(fn) for x in AST._targ_print(t) if t[0] == 'type']
+            tt = [x for t in self.ast.fn_targs(fn) for x in AST._targ_print(t) if t[0] == 'type' or (t[0] == 'pack' and all(y[0] == 'type' for y in t[1]))]
             name = base + ('__' + sanitize('_'.join(tt)) if tt else '')
         n = 1
         final = name
@@ -1314,6 +1349,9 @@ class FnLower:
             if len(inner) == 0:
                 return '0'
             raise Unsupported('initializer list for non-class type')
+        if len(inner) == 1 and canon_type(type_str(inner[0]['type'])) == canon_type(type_str(n['type'])):
+            # T{x} with x of type T: reference binding or copy, not aggregate initialisation
+            return self.expr(inner[0])
         # aggregate initialisation of a class: build a temporary field by field
         t = self.ctx.ctype(n['type'])[0]
         nm = self.newtmp('__a')
